@@ -768,6 +768,16 @@ Section RevealBefore.
 
 
 
+  Lemma xl_run_full : forall add bs P,
+    extend_loop N_order T dr add bs P false =
+    (let s := run add P {| md := false; wr := []; aj := 0%Z; nx := length add; bk := firstn (length add) bs |} in
+     ({| x_adjust := aj s; x_make_full := false; x_next_use := nx s |}, [], firstn (nx s) (bk s))).
+  Proof.
+    intros add bs P. cbn zeta. unfold extend_loop.
+    destruct (ext_full N_order T add P 0%Z (length add) (firstn (length add) bs)) as [[[rest2 a2] nu2] b2] eqn:E2.
+    rewrite (run_full _ _ _ _ _ _ _ _ _ _ E2). reflexivity.
+  Qed.
+
   Lemma stepf_bounds : forall add s p, p <> [] -> nx s <= length add -> nx s <= length (bk s) ->
     nx (stepf add s p) <= length add /\ nx (stepf add s p) <= length (bk (stepf add s p)).
   Proof.
@@ -784,6 +794,34 @@ Section RevealBefore.
   Proof.
     intros add P. induction P as [|p P IH]; intros s HP H1 H2; [rewrite run_nil; split; assumption|].
     inversion HP as [|? ? Hp HP']. subst. rewrite run_cons. destruct (stepf_bounds add s p Hp H1 H2) as [B1 B2]. apply IH; assumption.
+  Qed.
+
+
+  (* ---- more facts about the fold ------------------------------------------------------------------------------------ *)
+  Lemma run_full_mode : forall add Q s, Forall (fun p : key => p <> []) Q -> md s = false ->
+    md (run add Q s) = false /\ wr (run add Q s) = wr s /\ nx (run add Q s) <= nx s.
+  Proof.
+    intros add Q. induction Q as [|q Q IH]; intros s HQ Hm; [rewrite run_nil; repeat split; [exact Hm|lia]|].
+    inversion HQ as [|? ? Hq HQ']. subst. rewrite run_cons.
+    assert (E : md (stepf add s q) = false /\ wr (stepf add s q) = wr s /\ nx (stepf add s q) <= nx s).
+    { unfold stepf. rewrite Hm. destruct (Nat.eqb_spec (nx s) 0) as [Z|Z]; [cbn [md wr nx]; repeat split; lia|].
+      destruct (el (firstn (nx s) add) (bk s) q) as [[ret bo] nu'] eqn:E1.
+      destruct (extend_left_bounds N_order Hord T _ _ _ _ _ _ Hq E1) as [Q1 _]. rewrite firstn_length in Q1.
+      cbn [md wr nx]. repeat split. lia. }
+    destruct E as [E1 [E2 E3]]. destruct (IH _ HQ' E1) as [I1 [I2 I3]]. repeat split; [exact I1|congruence|lia].
+  Qed.
+
+  (* with N-1 words of context every pointer ends independent: whether the loop is still "writing" makes no difference *)
+  Lemma run_mode_irrelevant : forall add q Q s, q <> [] -> length q <= N_order - 1 -> N_order <= length q + length add ->
+    nx s = length add -> length add <> 0 ->
+    run add (q :: Q) {| md := true; wr := wr s; aj := aj s; nx := nx s; bk := bk s |} =
+    run add (q :: Q) {| md := false; wr := wr s; aj := aj s; nx := nx s; bk := bk s |}.
+  Proof.
+    intros add q Q s Hq Hl Hn Hx Ha. rewrite !run_cons. f_equal. unfold stepf. cbn [md wr aj nx bk]. rewrite Hx.
+    replace (Nat.eqb (length add) 0) with false by (symmetry; apply Nat.eqb_neq; exact Ha).
+    rewrite firstn_all.
+    pose proof (el_long_indep N_order Hord T add (bk s) q Hq Hl Hn) as Hi.
+    destruct (el add (bk s) q) as [[ret bo] nu']. cbn [fst] in Hi. rewrite Hi. reflexivity.
   Qed.
 
   (* RevealBefore with reveal_full = false, as a function of the words and back-offs it adds *)
@@ -806,9 +844,20 @@ Section RevealBefore.
   Definition good' (p : key) : Prop := 1 <= length p <= N_order - 1.
   Definition BJ (l : left) (r : state) (s : nat) : Prop :=
     Forall good' (l_ptrs l) /\ length (s_bo r) = length (s_words r) /\
-    (l_full l = false -> chain N_order s (l_ptrs l) /\ length (s_words r) = length (l_ptrs l) + s).
+    (l_full l = false -> chain N_order s (l_ptrs l) /\ length (s_words r) <= length (l_ptrs l) + s).
 
   (* ---- the single call, the first call and the second call side by side -------------------------------------------- *)
+  Lemma chain_good : forall P k, chain N_order k P -> Forall good' P.
+  Proof.
+    induction P as [|p P IH]; intros k H; [constructor|]. destruct H as [H1 [H2 H3]]. constructor; [unfold good'; lia|exact (IH _ H3)].
+  Qed.
+
+  Lemma chain_count : forall P k, chain N_order k P -> P = [] \/ k + length P <= N_order - 1.
+  Proof.
+    induction P as [|p P IH]; intros k H; [left; reflexivity|]. right. destruct H as [_ [H2 H3]].
+    destruct (IH _ H3) as [E|E]; [subst P; cbn [length]; lia|cbn [length]; lia].
+  Qed.
+
   Section Sim.
     Variables A1 A2 : list word.
     Hypothesis HA1 : A1 <> [].
@@ -1057,30 +1106,29 @@ Section RevealBefore.
     Qed.
 
     (* ---- the second call: a pointer of length N-1 uses up all context ---------------------------------------------- *)
-    Lemma el_last : forall add B q, length q = N_order - 1 -> 2 <= length q -> snd (el add B q) = 0.
+    Lemma el_last : forall add B q, length q = N_order - 1 -> snd (el add B q) = 0.
     Proof.
-      intros add B q Hq H2. rewrite extend_left_core. cbn zeta.
+      intros add B q Hq. rewrite extend_left_core. cbn zeta.
       destruct add as [|h add'].
       - cbn [resume_core snd pick]. lia.
-      - cbn [resume_core]. unfold rx0_of at 1. cbn [r_indep].
-        replace (Nat.eqb (length q) 1) with false by (symmetry; apply Nat.eqb_neq; lia).
+      - cbn [resume_core]. destruct (r_indep (rx0_of T q)); [cbn [snd pick]; lia|].
         replace (Nat.eqb (length q - 1) (N_order - 2)) with true by (symmetry; apply Nat.eqb_eq; lia).
         destruct (T (q ++ [h])); cbn [snd pick]; lia.
     Qed.
 
-    Lemma step2_last : forall s2 q, length q = N_order - 1 -> 2 <= length q -> nx (stepf A2 s2 q) = 0.
+    Lemma step2_last : forall s2 q, length q = N_order - 1 -> nx (stepf A2 s2 q) = 0.
     Proof.
-      intros s2 q Hq H2. unfold stepf. destruct (md s2).
-      - pose proof (el_last (firstn (nx s2) A2) (bk s2) q Hq H2) as H.
+      intros s2 q Hq. unfold stepf. destruct (md s2).
+      - pose proof (el_last (firstn (nx s2) A2) (bk s2) q Hq) as H.
         destruct (el (firstn (nx s2) A2) (bk s2) q) as [[ret bo] nu']. cbn [snd] in H. subst nu'. destruct (r_indep ret); reflexivity.
       - destruct (Nat.eqb_spec (nx s2) 0) as [Z|Z]; [reflexivity|].
-        pose proof (el_last (firstn (nx s2) A2) (bk s2) q Hq H2) as H.
+        pose proof (el_last (firstn (nx s2) A2) (bk s2) q Hq) as H.
         destruct (el (firstn (nx s2) A2) (bk s2) q) as [[ret bo] nu']. cbn [snd] in H. subst nu'. reflexivity.
     Qed.
 
-    Lemma run2_last : forall Q q s2, length q = N_order - 1 -> 2 <= length q -> nx (run A2 (Q ++ [q]) s2) = 0.
+    Lemma run2_last : forall Q q s2, length q = N_order - 1 -> nx (run A2 (Q ++ [q]) s2) = 0.
     Proof.
-      intros Q q s2 Hq H2. unfold run. rewrite fold_left_app. cbn [fold_left]. apply step2_last; assumption.
+      intros Q q s2 Hq. unfold run. rewrite fold_left_app. cbn [fold_left]. apply step2_last; assumption.
     Qed.
 
     (* ---- RevealBefore over A1 ++ A2 is RevealBefore over A1 followed by RevealBefore over A2 -------------------------- *)
@@ -1160,8 +1208,10 @@ Section RevealBefore.
           assert (HPne : P <> []) by (intros E; rewrite E in HLen; cbn [length] in HLen; lia).
           destruct (exists_last HPne) as [P' [pl EP]].
           rewrite EP in HC. pose proof (chain_last_len _ _ _ HC) as Hpl.
+          assert (Hpl2 : length pl + a1 <= N_order - 1).
+          { rewrite EP in HFl. apply Forall_app in HFl. destruct HFl as [_ HFl']. inversion HFl' as [|? ? Hq' _]. exact Hq'. }
           assert (Hq : length (pl ++ A1) = N_order - 1) by (rewrite app_length; fold a1; rewrite EP, app_length in HLen; cbn [length] in HLen; lia).
-          unfold s2f. rewrite HWr, EP, map_app. cbn [map]. apply run2_last; [exact Hq|rewrite app_length; fold a1; lia]. }
+          unfold s2f. rewrite HWr, EP, map_app. cbn [map]. apply run2_last; exact Hq. }
         inversion HR as [M0 M1 M2 X0 X1 X2 HW HJ HL HBk | M0 M1 M2 X1 X0 X2 HW HJ HL HBk | M0 M1 X0 X1 HW HJ HBk].
         + (* nobody stopped *)
           destruct (Open1 M1) as [HWr [_ [_ [HnP [HCh Hlast]]]]].
@@ -1202,7 +1252,314 @@ Section RevealBefore.
           * split; [exact G1|]. split; [|cbn [l_full]; discriminate]. cbn [s_bo s_words]. rewrite !app_length, !firstn_length. fold a1. lia.
     Qed.
 
+
+    (* ---- a RevealBefore instalment and a RevealAfter instalment on the same fragment commute ---------------------------------
+       (A1 = the fragment's right-state words, the context RevealAfter walks with; A2 = the words RevealBefore adds.)
+       RevealAfter first: the following fragment's pointers are extended by A1 and appended, then RevealBefore extends them by A2.
+       RevealBefore first: A2 is appended to the right state, then RevealAfter extends the pointers by A1 ++ A2 in one go.
+       That is the single call / first call / second call situation again, the second call starting from the loop state
+       RevealBefore has reached after the fragment's own pointers. *)
+    Definition unshift (W0 : list key) (J0 : Z) (s : st) : st :=
+      {| md := md s; wr := skipn (length W0) (wr s); aj := (aj s - J0)%Z; nx := nx s; bk := bk s |}.
+
+    Lemma skipn_app_exact : forall (X : Type) (l1 l2 : list X), skipn (length l1) (l1 ++ l2) = l2.
+    Proof. intros. rewrite skipn_app, skipn_all, Nat.sub_diag. reflexivity. Qed.
+
+    Lemma stepf_unshift : forall add W0 J0 s q w, wr s = W0 ++ w ->
+      stepf add (unshift W0 J0 s) q = unshift W0 J0 (stepf add s q) /\ exists w', wr (stepf add s q) = W0 ++ w'.
+    Proof.
+      intros add W0 J0 s q w Hw. unfold stepf, unshift. cbn [md nx bk wr aj]. rewrite Hw, skipn_app_exact.
+      destruct (md s).
+      - destruct (el (firstn (nx s) add) (bk s) q) as [[ret bo] nu']. destruct (r_indep ret); cbn [md nx bk wr aj].
+        + split; [rewrite skipn_app_exact; f_equal; lia|exists w; reflexivity].
+        + split; [rewrite <- app_assoc, skipn_app_exact; f_equal; lia|exists (w ++ [r_ext ret]); rewrite app_assoc; reflexivity].
+      - destruct (Nat.eqb (nx s) 0); cbn [md nx bk wr aj].
+        + split; [rewrite skipn_app_exact; f_equal; lia|exists w; reflexivity].
+        + destruct (el (firstn (nx s) add) (bk s) q) as [[ret bo] nu']. cbn [md nx bk wr aj].
+          split; [rewrite skipn_app_exact; f_equal; lia|exists w; reflexivity].
+    Qed.
+
+    Lemma run_unshift : forall add Q W0 J0 s w, wr s = W0 ++ w ->
+      run add Q (unshift W0 J0 s) = unshift W0 J0 (run add Q s) /\ exists w', wr (run add Q s) = W0 ++ w'.
+    Proof.
+      intros add Q. induction Q as [|q Q IH]; intros W0 J0 s w Hw; [rewrite !run_nil; split; [reflexivity|exists w; exact Hw]|].
+      rewrite !run_cons. destruct (stepf_unshift add W0 J0 s q w Hw) as [E [w' Hw']]. rewrite E. apply (IH W0 J0 _ w' Hw').
+    Qed.
+
+    (* in its second loop ExtendLoop looks only at the first next_use words of the context *)
+    Lemma run_add_full : forall add n0 P s, Forall (fun p : key => p <> []) P -> md s = false -> nx s <= n0 ->
+      run (firstn n0 add) P s = run add P s.
+    Proof.
+      intros add n0 P. induction P as [|p P IH]; intros s HP Hm Hn; [reflexivity|]. inversion HP as [|? ? Hp HP']. subst.
+      rewrite !run_cons.
+      assert (E : stepf (firstn n0 add) s p = stepf add s p).
+      { unfold stepf. rewrite Hm. destruct (Nat.eqb (nx s) 0); [reflexivity|].
+        rewrite firstn_firstn. replace (Nat.min (nx s) n0) with (nx s) by lia. reflexivity. }
+      rewrite E. apply IH; [exact HP'| |].
+      - unfold stepf. rewrite Hm. destruct (Nat.eqb (nx s) 0); [reflexivity|].
+        destruct (el (firstn (nx s) add) (bk s) p) as [[ret bo] nu']. reflexivity.
+      - unfold stepf. rewrite Hm. destruct (Nat.eqb_spec (nx s) 0) as [Z|Z]; [cbn [nx]; lia|].
+        destruct (el (firstn (nx s) add) (bk s) p) as [[ret bo] nu'] eqn:E1.
+        destruct (extend_left_bounds N_order Hord T _ _ _ _ _ _ Hp E1) as [Q1 _]. rewrite firstn_length in Q1. cbn [nx]. lia.
+    Qed.
+
   End Sim.
+
+
+  (* ---- a RevealBefore instalment and a RevealAfter instalment on the same fragment commute ------------------------------------
+     (A1 = the fragment's right-state words, the context RevealAfter walks with; A2 = the words RevealBefore adds.)
+     RevealAfter first: the following fragment's pointers are extended by A1 and appended, then RevealBefore extends them by A2.
+     RevealBefore first: A2 is appended to the right state, then RevealAfter extends the pointers by A1 ++ A2 in one go.
+     That is the single call / first call / second call situation again, the second call starting from the loop state
+     RevealBefore has reached after the fragment's own pointers. *)
+  Section Commute.
+    Variables A1 A2 : list word.
+    Hypothesis HA1 : A1 <> [].
+    Hypothesis HA2 : A2 <> [].
+    Let a1 := length A1.
+    Let a2 := length A2.
+
+    Lemma commute_open : forall B2 l r Q sb sa, s_words r = A1 -> length B2 = a2 -> l_full l = false ->
+      BJ l r sb -> J l r sa -> chain N_order sa Q -> sb + a2 <= N_order - 1 ->
+      let '(x1, l1, r1) := rbf A2 B2 l r in
+      let '(x2, l2, r2) := ra N_order T dr l1 r1 Q in
+      let '(y1, l1', r1') := ra N_order T dr l r Q in
+      let '(y2, l2', r2') := rbf A2 B2 l1' r1' in
+      (x1 + x2)%Z = (y1 + y2)%Z /\ l2 = l2' /\ r2 = r2'.
+    Proof.
+      intros B2 l r Q sb sa Hr HB2 Ef [HG [Hsw Hopen]] [_ HJ] HCQ Hu.
+      pose proof (a1_pos A1 A2 HA1) as Ha1. pose proof (a1_pos A2 A1 HA2) as Ha2. fold a1 in Ha1. fold a2 in Ha2.
+      destruct (Hopen Ef) as [HC HLen]. specialize (HJ Ef). rewrite Hr in HLen, HJ, Hsw. fold a1 in HLen, HJ, Hsw.
+      set (P := l_ptrs l) in *.
+      assert (NeP : Forall (fun p : key => p <> []) P).
+      { apply Forall_forall. intros p Hin. rewrite Forall_forall in HG. specialize (HG p Hin). unfold good' in HG. destruct p; [cbn in HG; lia|discriminate]. }
+      pose proof (chain_good _ _ HCQ) as GQ.
+      assert (NeQ : Forall (fun p : key => p <> []) Q).
+      { apply Forall_forall. intros p Hin. rewrite Forall_forall in GQ. specialize (GQ p Hin). unfold good' in GQ. destruct p; [cbn in GQ; lia|discriminate]. }
+      set (s20 := {| md := true; wr := []; aj := 0%Z; nx := a2; bk := firstn a2 B2 |}).
+      set (s10 := {| md := true; wr := []; aj := 0%Z; nx := a1; bk := firstn a1 (s_bo r) |}).
+      set (s2P := run A2 P s20).
+      set (s1f := run A1 Q s10).
+      set (s2f := run A2 (wr s1f) s2P).
+      (* facts about RevealBefore's loop over the fragment's own pointers *)
+      assert (I20 : W1inv A2 s20) by (intros _; unfold s20; cbn [nx bk]; split; [reflexivity|rewrite firstn_length; fold a2; lia]).
+      destruct (run1_facts A2 A1 HA2 P s20 HG I20 ltac:(constructor)) as [I2P [G2P K2P]]. fold s2P in I2P, G2P, K2P.
+      assert (Bd2P : nx s2P <= a2 /\ nx s2P <= length (bk s2P)).
+      { apply (run_bounds A2 P s20 NeP); unfold s20; cbn [nx bk]; [fold a2; lia|rewrite firstn_length; lia]. }
+      (* facts about RevealAfter's loop over the following fragment's pointers *)
+      assert (I10 : W1inv A1 s10) by (intros _; unfold s10; cbn [nx bk]; split; [reflexivity|rewrite firstn_length; fold a1; lia]).
+      destruct (run1_facts A1 A2 HA1 Q s10 GQ I10 ltac:(constructor)) as [I1f [G1f K1f]]. fold s1f in I1f, G1f, K1f.
+      assert (Bd1f : nx s1f <= a1 /\ nx s1f <= length (bk s1f)).
+      { apply (run_bounds A1 Q s10 NeQ); unfold s10; cbn [nx bk]; [fold a1; lia|rewrite firstn_length; lia]. }
+      (* the longest pointer of P, when it has length N-1, uses up all context *)
+      assert (LastP : forall P' pl, P = P' ++ [pl] -> length pl = N_order - 1 -> nx s2P = 0).
+      { intros P' pl EP Hl. unfold s2P. rewrite EP. apply (run2_last A1 A2). exact Hl. }
+      (* Fact 1: while RevealBefore's loop has not stopped it cannot have written N-1 pointers *)
+      assert (Fact1 : md s2P = true -> Nat.eqb (length (wr s2P)) (N_order - 1) = false).
+      { intros M2. destruct (K2P M2) as [_ [HW HF]]. unfold s20 in HW. cbn [wr app] in HW. rewrite HW, map_length. apply Nat.eqb_neq.
+        destruct (Nat.eq_dec (length P) 0) as [Z|Z]; [unfold key in *; lia|].
+        assert (HPne : P <> []) by (intros E; rewrite E in Z; cbn in Z; lia).
+        destruct (exists_last HPne) as [P' [pl EP]]. rewrite EP in HC, HF.
+        pose proof (chain_last_len A1 A2 _ _ _ HC) as Hpl.
+        apply Forall_app in HF. destruct HF as [_ HF]. inversion HF as [|? ? Hq _]. fold a2 in Hq.
+        rewrite EP, app_length. cbn [length]. unfold key in *. lia. }
+      (* Fact 2: when RevealAfter's loop has not stopped but its left state is complete by the counts, the second call ends with no context in use *)
+      assert (Fact2 : md s1f = true -> orb (Nat.eqb (nx s1f) (N_order - 1)) (Nat.eqb (length (P ++ wr s1f)) (N_order - 1)) = true -> nx s2f = 0).
+      { intros M1 Hc. destruct (K1f M1) as [_ [HW HF]]. unfold s10 in HW. cbn [wr app] in HW. destruct (I1f M1) as [X1 _]. fold a1 in HF.
+        destruct (Nat.eq_dec (length Q) 0) as [Z|Z].
+        - assert (EQ : Q = []) by (destruct Q; [reflexivity|cbn in Z; lia]).
+          assert (Es2 : s2f = s2P) by (unfold s2f; rewrite HW, EQ; reflexivity). rewrite Es2.
+          assert (HPl : N_order - 1 <= length P + sb).
+          { apply orb_true_iff in Hc. destruct Hc as [Hc|Hc]; apply Nat.eqb_eq in Hc.
+            - rewrite X1 in Hc. unfold key in *. lia.
+            - rewrite HW, EQ in Hc. cbn [map] in Hc. rewrite app_nil_r in Hc. unfold key in *. lia. }
+          assert (HPne : P <> []) by (intros E; rewrite E in HPl; cbn [length] in HPl; lia).
+          destruct (exists_last HPne) as [P' [pl EP]]. rewrite EP in HC. pose proof (chain_last_len A1 A2 _ _ _ HC) as Hpl.
+          assert (Hgl : good' pl) by (rewrite Forall_forall in HG; apply HG; rewrite EP; apply in_or_app; right; left; reflexivity).
+          apply (LastP P' pl EP). unfold good' in Hgl. rewrite EP, app_length in HPl. cbn [length] in HPl. unfold key in *. lia.
+        - assert (HQne : Q <> []) by (intros E; rewrite E in Z; cbn in Z; lia).
+          destruct (exists_last HQne) as [Q' [ql EQ]]. rewrite EQ in HCQ, HF. pose proof (chain_last_len A1 A2 _ _ _ HCQ) as Hql.
+          apply Forall_app in HF. destruct HF as [_ HF]. inversion HF as [|? ? Hq _].
+          assert (Hlen : length (ql ++ A1) = N_order - 1).
+          { rewrite app_length. fold a1. apply orb_true_iff in Hc. destruct Hc as [Hc|Hc]; apply Nat.eqb_eq in Hc.
+            - rewrite X1 in Hc. assert (1 <= length ql) by lia. lia.
+            - rewrite HW, app_length, map_length, EQ, app_length in Hc. cbn [length] in Hc. unfold key in *. lia. }
+          unfold s2f. rewrite HW, EQ, map_app. cbn [map]. apply (run2_last A1 A2). exact Hlen. }
+      (* unfold the four calls *)
+      unfold rbf at 1. rewrite xl_run. cbn zeta. fold a2 P s20 s2P. rewrite Ef. cbn [x_adjust x_make_full x_next_use].
+      rewrite (ra_unfold N_order T dr l r Q). rewrite Ef. cbn [negb]. rewrite xl_run. cbn zeta. rewrite Hr. fold a1 s10 s1f.
+      cbn [x_adjust x_make_full x_next_use].
+      unfold rbf. rewrite xl_run. cbn zeta. cbn [l_ptrs l_full s_words s_bo]. fold a2 s20. fold P.
+      assert (E2f : run A2 (P ++ wr s1f) s20 = s2f) by (unfold s2f, s2P, run; rewrite fold_left_app; reflexivity).
+      rewrite E2f. cbn [x_adjust x_make_full x_next_use].
+      rewrite ra_unfold. cbn [l_ptrs l_full s_words s_bo].
+      set (add' := A1 ++ firstn (nx s2P) A2).
+      set (bs' := s_bo r ++ firstn (nx s2P) (bk s2P)).
+      assert (Ladd : length add' = a1 + nx s2P) by (unfold add'; rewrite app_length, firstn_length; fold a1 a2; lia).
+      assert (Lbs : length bs' = a1 + nx s2P) by (unfold bs'; rewrite app_length, firstn_length; lia).
+      set (FB := orb (orb (negb (md s2P)) (Nat.eqb (length (wr s2P)) (N_order - 1))) (Nat.eqb (length add') (N_order - 1))).
+      set (FA := orb (orb (negb (md s1f)) (Nat.eqb (nx s1f) (N_order - 1))) (Nat.eqb (length (P ++ wr s1f)) (N_order - 1))).
+      assert (Ebs10 : bk s10 = s_bo r) by (unfold s10; cbn [bk]; apply firstn_all2; lia).
+      destruct Q as [|q0 Q0].
+      - (* nothing to reveal on the right: both orders do the same RevealBefore *)
+        assert (Es1 : s1f = s10) by reflexivity.
+        assert (Es2 : s2f = s2P) by (unfold s2f; rewrite Es1; reflexivity).
+        rewrite Es2, Es1. unfold FA. rewrite Es1. change (nx s10) with a1. change (md s10) with true. change (wr s10) with (@nil key).
+        rewrite app_nil_r. cbn [negb orb].
+        assert (EX : forall wflag, extend_loop N_order T dr add' bs' [] wflag =
+                       ({| x_adjust := 0%Z; x_make_full := false; x_next_use := length add' |}, [], bs')).
+        { intros [|]; unfold extend_loop; cbn [ext_write ext_full]; rewrite (unr_nil'' T dr);
+            rewrite firstn_firstn, Nat.min_id, firstn_all2 by lia; reflexivity. }
+        rewrite EX. cbn [x_adjust x_make_full x_next_use orb]. rewrite firstn_all, app_nil_r.
+        rewrite (firstn_all2 (n := a1) A1) by (fold a1; lia). rewrite Ebs10. rewrite (firstn_all2 (n := a1) (s_bo r)) by lia.
+        fold add' bs'. change (aj s10) with 0%Z.
+        destruct (orb (Nat.eqb a1 (N_order - 1)) (Nat.eqb (length P) (N_order - 1))) eqn:EFA.
+        + assert (Hz : nx s2P = 0).
+          { rewrite <- Es2. apply Fact2; [reflexivity|]. rewrite Es1. unfold s10. cbn [nx wr]. rewrite app_nil_r. exact EFA. }
+          assert (Eadd : add' = A1) by (unfold add'; rewrite Hz; cbn [firstn]; apply app_nil_r).
+          assert (Ebs : bs' = s_bo r) by (unfold bs'; rewrite Hz; cbn [firstn]; apply app_nil_r).
+          assert (HFB : FB = true).
+          { unfold FB. rewrite Eadd. fold a1. apply orb_true_iff in EFA. destruct EFA as [E|E]; [rewrite E; apply orb_true_r|].
+            destruct (md s2P) eqn:M2; [|reflexivity]. exfalso.
+            pose proof (Fact1 eq_refl) as F1. destruct (K2P eq_refl) as [_ [HW _]]. unfold s20 in HW. cbn [wr app] in HW.
+            rewrite HW, map_length in F1. unfold key in *. rewrite E in F1. discriminate. }
+          rewrite HFB, Hz, Eadd, Ebs. cbn [firstn]. unfold sum_bo. cbn [fold_right].
+          split; [lia|]. split; reflexivity.
+        + fold add'. fold FB. split; [lia|]. split; [|reflexivity].
+          destruct FB eqn:HFB; [reflexivity|].
+          unfold FB in HFB. apply orb_false_iff in HFB. destruct HFB as [HFB1 HFB2]. apply orb_false_iff in HFB1. destruct HFB1 as [_ HFB1].
+          rewrite HFB1, HFB2. reflexivity.
+      - set (Qn := q0 :: Q0) in *.
+        assert (Gq0 : good' q0) by (inversion GQ; assumption).
+        assert (Nq0 : q0 <> []) by (inversion NeQ; assumption).
+        assert (Enews : news A1 Qn s10 = wr s1f) by (unfold s1f; rewrite wr_run1; reflexivity).
+        set (U0 := unshift (wr s2P) (aj s2P) s2P).
+        set (Uf := unshift (wr s2P) (aj s2P) s2f).
+        destruct (run_unshift A1 A2 A2 (wr s1f) (wr s2P) (aj s2P) s2P [] ltac:(rewrite app_nil_r; reflexivity)) as [EUf [w2 Hw2]].
+        fold s2f U0 Uf in EUf, Hw2.
+        assert (FldU : md Uf = md s2f /\ nx Uf = nx s2f /\ bk Uf = bk s2f /\ wr Uf = w2 /\ aj Uf = (aj s2f - aj s2P)%Z).
+        { unfold Uf, unshift. cbn [md nx bk wr aj]. rewrite Hw2, skipn_app_exact. repeat split. }
+        destruct FldU as [UM [UX [UB [UW UJ]]]].
+        (* the single call: its final loop state sf, related to the two other calls *)
+        assert (SF : exists sf, Rel A1 A2 sf s1f Uf /\
+                      (FB = false -> extend_loop N_order T dr add' bs' Qn true =
+                                     ({| x_adjust := aj sf; x_make_full := negb (md sf); x_next_use := nx sf |}, wr sf, firstn (nx sf) (bk sf))) /\
+                      (FB = true -> extend_loop N_order T dr add' bs' Qn false =
+                                     ({| x_adjust := aj sf; x_make_full := false; x_next_use := nx sf |}, [], firstn (nx sf) (bk sf)) /\
+                                    md sf = false /\ wr sf = [])).
+        { destruct (md s2P) eqn:M2.
+          - destruct (I2P M2) as [X2 HL2].
+            assert (Eadd : add' = A1 ++ A2) by (unfold add'; rewrite X2; apply f_equal; apply firstn_all).
+            assert (Ebs : bs' = s_bo r ++ bk s2P) by (unfold bs'; rewrite X2, firstn_all2 by lia; reflexivity).
+            set (s0w := {| md := true; wr := []; aj := 0%Z; nx := a1 + a2; bk := firstn (a1 + a2) bs' |}).
+            assert (R0 : Rel A1 A2 s0w s10 U0).
+            { apply RelA; unfold s0w, s10, U0, unshift; cbn [md nx wr aj bk]; fold a1 a2; try reflexivity; try assumption.
+              - rewrite skipn_all. reflexivity.
+              - lia.
+              - rewrite firstn_length. lia.
+              - rewrite firstn_firstn, Nat.min_id, Ebs. rewrite (firstn_all2 (n := a1) (s_bo r)) by lia.
+                rewrite (firstn_all2 (n := a2) (bk s2P)) by lia. apply firstn_all2. rewrite app_length. lia. }
+            pose proof (Rel_run A1 A2 HA1 HA2 Qn s0w s10 U0 GQ R0) as HR. rewrite Enews, EUf in HR. fold s1f in HR.
+            exists (run (A1 ++ A2) Qn s0w). split; [exact HR|].
+            assert (Ladd2 : length add' = a1 + a2) by (rewrite Ladd, X2; reflexivity).
+            split.
+            + intros _. rewrite xl_run. cbn zeta. rewrite Ladd2, Eadd. reflexivity.
+            + intros HFB. rewrite xl_run_full. cbn zeta. rewrite Ladd2.
+              assert (Hsum : a1 + a2 = N_order - 1).
+              { unfold FB in HFB. rewrite (Fact1 eq_refl), Ladd2 in HFB. cbn [negb orb] in HFB. apply Nat.eqb_eq in HFB. exact HFB. }
+              set (s0f := {| md := false; wr := []; aj := 0%Z; nx := a1 + a2; bk := firstn (a1 + a2) bs' |}).
+              assert (Eirr : run (A1 ++ A2) Qn s0w = run (A1 ++ A2) Qn s0f).
+              { unfold Qn. apply (run_mode_irrelevant (A1 ++ A2) q0 Q0 s0w Nq0); unfold good' in Gq0; rewrite ?app_length; fold a1 a2; unfold s0w; cbn [nx]; lia. }
+              rewrite Eadd. fold s0f. rewrite <- Eirr.
+              destruct (run_full_mode (A1 ++ A2) Qn s0f NeQ eq_refl) as [F1 [F2 _]]. rewrite <- Eirr in F1, F2.
+              split; [reflexivity|]. split; [exact F1|exact F2].
+          - set (s0 := {| md := false; wr := []; aj := 0%Z; nx := a1 + nx s2P; bk := firstn (a1 + nx s2P) bs' |}).
+            assert (R0 : Rel A1 A2 s0 s10 U0).
+            { apply RelB; unfold s0, s10, U0, unshift; cbn [md nx wr aj bk]; fold a1 a2; try reflexivity; try assumption; try lia.
+              - rewrite skipn_all. reflexivity.
+              - rewrite firstn_length. lia.
+              - rewrite firstn_firstn, Nat.min_id. unfold bs'. rewrite (firstn_all2 (n := a1) (s_bo r)) by lia.
+                rewrite firstn_app, Hsw. replace (a1 + nx s2P - a1) with (nx s2P) by lia. rewrite firstn_firstn, Nat.min_id.
+                rewrite (firstn_all2 (n := a1 + nx s2P) (s_bo r)) by lia. reflexivity. }
+            pose proof (Rel_run A1 A2 HA1 HA2 Qn s0 s10 U0 GQ R0) as HR. rewrite Enews, EUf in HR. fold s1f in HR.
+            exists (run (A1 ++ A2) Qn s0). split; [exact HR|].
+            assert (HFB : FB = true) by (unfold FB; reflexivity).
+            split; [intros E; congruence|]. intros _.
+            rewrite xl_run_full. cbn zeta. rewrite Ladd. fold s0.
+            assert (Eadd : add' = firstn (a1 + nx s2P) (A1 ++ A2)).
+            { unfold add'. rewrite (firstn_app_exact A1 A2 _ A1 A2 a1 eq_refl (nx s2P)). reflexivity. }
+            rewrite Eadd. rewrite (run_add_full A1 A2 (A1 ++ A2) (a1 + nx s2P) Qn s0 NeQ eq_refl ltac:(unfold s0; cbn [nx]; lia)).
+            destruct (run_full_mode (A1 ++ A2) Qn s0 NeQ eq_refl) as [F1 [F2 _]].
+            split; [reflexivity|]. split; [exact F1|exact F2]. }
+        destruct SF as [sf [HRel [SFw SFf]]].
+        assert (Bn : nx s2f <= nx s2P).
+        { destruct (md s2P) eqn:M2.
+          - destruct (I2P M2) as [X2 _]. rewrite X2.
+            apply (run_bounds A2 (wr s1f) s2P); [|lia|lia].
+            apply Forall_forall. intros p Hin. rewrite Forall_forall in G1f. specialize (G1f p Hin). unfold good in G1f. destruct p; [cbn in G1f; lia|discriminate].
+          - apply (run_full_mode A2 (wr s1f) s2P); [|exact M2].
+            apply Forall_forall. intros p Hin. rewrite Forall_forall in G1f. specialize (G1f p Hin). unfold good in G1f. destruct p; [cbn in G1f; lia|discriminate]. }
+        assert (Efa1 : forall n, n <= nx s2P -> firstn (a1 + n) add' = A1 ++ firstn n A2).
+        { intros n Hn. unfold add'. rewrite (firstn_app_exact A1 A2 _ A1 (firstn (nx s2P) A2) a1 eq_refl n).
+          rewrite firstn_firstn. replace (Nat.min n (nx s2P)) with n by lia. reflexivity. }
+        assert (Efa0 : forall n, n <= a1 -> firstn n add' = firstn n A1).
+        { intros n Hn. unfold add'. rewrite firstn_app. fold a1. replace (n - a1) with 0 by lia. cbn [firstn]. apply app_nil_r. }
+        assert (EA1 : firstn a1 A1 = A1) by apply firstn_all.
+        change (aj s10) with 0%Z.
+        inversion HRel as [M0 M1 M2 X0 X1 X2 HW HJJ HL HBk | M0 M1 M2 X1 X0 X2 HW HJJ HL HBk | M0 M1 X0 X1 HW HJJ HBk];
+          rewrite ?UM, ?UX, ?UB, ?UW, ?UJ in *.
+        + (* nobody stopped *)
+          fold a1 a2 in HBk, X0, X1, X2, HL.
+          destruct FB eqn:HFB; [destruct (SFf eq_refl) as [_ [Msf _]]; congruence|].
+          cbn [negb]. rewrite (SFw eq_refl). cbn [negb x_adjust x_make_full x_next_use].
+          unfold FA. rewrite M1, X1. fold a1. cbn [negb orb].
+          destruct (orb (Nat.eqb a1 (N_order - 1)) (Nat.eqb (length (P ++ wr s1f)) (N_order - 1))) eqn:EFA.
+          * exfalso. assert (nx s2f = 0) by (apply Fact2; [exact M1|rewrite X1; exact EFA]). lia.
+          * assert (Em2 : nx s2P = a2) by lia.
+            rewrite M0, M2, X0, X2, HW, Hw2, HJJ. fold a1 a2. rewrite (Efa1 a2) by lia. rewrite HBk, EA1.
+            rewrite (firstn_all2 (n := a1) (bk s1f)) by lia. cbn [negb orb].
+            split; [lia|]. split; [|reflexivity].
+            f_equal. rewrite !app_length, !firstn_length. fold a2. replace (Nat.min a2 a2) with a2 by lia.
+            apply orb_comm.
+        + (* the single call and the second call stopped, the first call did not *)
+          fold a1 a2 in HBk, X0, X1, X2, HL. rewrite X0 in HBk.
+          unfold FA. rewrite M1, X1. fold a1. cbn [negb orb].
+          destruct (orb (Nat.eqb a1 (N_order - 1)) (Nat.eqb (length (P ++ wr s1f)) (N_order - 1))) eqn:EFA.
+          * assert (Hz : nx s2f = 0) by (apply Fact2; [exact M1|rewrite X1; exact EFA]).
+            rewrite Hz in *. rewrite Nat.add_0_r in X0, HBk. cbn [firstn] in *. rewrite app_nil_r in HBk.
+            destruct FB eqn:HFB.
+            -- destruct (SFf eq_refl) as [EX [Msf Wsf]]. cbn [negb]. rewrite EX. cbn [negb x_adjust x_make_full x_next_use].
+               rewrite X0. fold a1. rewrite (Efa0 a1) by lia. rewrite EA1, HBk. rewrite (firstn_all2 (n := a1) (bk s1f)) by lia.
+               rewrite Wsf in HW. rewrite Hw2, <- HW, app_nil_r. unfold sum_bo. cbn [fold_right].
+               split; [lia|]. split; reflexivity.
+            -- cbn [negb]. rewrite (SFw eq_refl). cbn [negb x_adjust x_make_full x_next_use]. rewrite M0. cbn [negb orb].
+               rewrite X0. fold a1. rewrite (Efa0 a1) by lia. rewrite EA1, HBk. rewrite (firstn_all2 (n := a1) (bk s1f)) by lia.
+               rewrite HW, <- Hw2. unfold sum_bo. cbn [fold_right].
+               split; [lia|]. split; reflexivity.
+          * rewrite M2. cbn [negb orb].
+            destruct FB eqn:HFB.
+            -- destruct (SFf eq_refl) as [EX [Msf Wsf]]. cbn [negb]. rewrite EX. cbn [negb x_adjust x_make_full x_next_use].
+               rewrite X0. fold a1. rewrite (Efa1 (nx s2f) Bn), HBk, EA1. rewrite (firstn_all2 (n := a1) (bk s1f)) by lia.
+               rewrite Wsf in HW. rewrite Hw2, <- HW, app_nil_r.
+               split; [lia|]. split; reflexivity.
+            -- cbn [negb]. rewrite (SFw eq_refl). cbn [negb x_adjust x_make_full x_next_use]. rewrite M0. cbn [negb orb].
+               rewrite X0. fold a1. rewrite (Efa1 (nx s2f) Bn), HBk, EA1. rewrite (firstn_all2 (n := a1) (bk s1f)) by lia.
+               rewrite HW, <- Hw2.
+               split; [lia|]. split; reflexivity.
+        + (* the first call stopped *)
+          fold a1 a2 in HBk, X0, X1. rewrite X0 in HBk.
+          unfold FA. rewrite M1. cbn [negb orb].
+          destruct FB eqn:HFB.
+          * destruct (SFf eq_refl) as [EX [Msf Wsf]]. cbn [negb]. rewrite EX. cbn [negb x_adjust x_make_full x_next_use].
+            rewrite X0, (Efa0 (nx s1f)) by lia. rewrite HBk.
+            rewrite Wsf in HW. rewrite Hw2, <- HW, app_nil_r.
+            split; [lia|]. split; reflexivity.
+          * cbn [negb]. rewrite (SFw eq_refl). cbn [negb x_adjust x_make_full x_next_use]. rewrite M0. cbn [negb orb].
+            rewrite X0, (Efa0 (nx s1f)) by lia. rewrite HBk.
+            rewrite HW, <- Hw2.
+            split; [lia|]. split; reflexivity.
+    Qed.
+  End Commute.
 
   (* ---- on the revealed state itself ------------------------------------------------------------------------------ *)
   Definition rvc (W : list word) (Bk : list boval) (c : nat) : state := {| s_words := firstn c W; s_bo := firstn c Bk |}.
@@ -1308,15 +1665,6 @@ Section RevealBefore.
     Qed.
   End WriteVsFull.
 
-  Lemma xl_run_full : forall add bs P,
-    extend_loop N_order T dr add bs P false =
-    (let s := run add P {| md := false; wr := []; aj := 0%Z; nx := length add; bk := firstn (length add) bs |} in
-     ({| x_adjust := aj s; x_make_full := false; x_next_use := nx s |}, [], firstn (nx s) (bk s))).
-  Proof.
-    intros add bs P. cbn zeta. unfold extend_loop.
-    destruct (ext_full N_order T add P 0%Z (length add) (firstn (length add) bs)) as [[[rest2 a2] nu2] b2] eqn:E2.
-    rewrite (run_full _ _ _ _ _ _ _ _ _ _ E2). reflexivity.
-  Qed.
 
   Theorem rb_finish : forall rv l r, length (s_bo rv) = length (s_words rv) -> s_words rv <> [] -> Forall good' (l_ptrs l) ->
     reveal_before N_order T dr rv 0 true l r =
@@ -1351,10 +1699,6 @@ Section RevealBefore.
   Notation flatf := (flat N_order T).
   Notation fin := (rs_finish N_order).
 
-  Lemma chain_good : forall P k, chain N_order k P -> Forall good' P.
-  Proof.
-    induction P as [|p P IH]; intros k H; [constructor|]. destruct H as [H1 [H2 H3]]. constructor; [unfold good'; lia|exact (IH _ H3)].
-  Qed.
 
   Lemma flat_right_len : forall ws X, length (s_words (rs_right X)) <= N_order - 1 ->
     length (s_words (rs_right (flatf X ws))) <= N_order - 1.
@@ -1451,11 +1795,6 @@ Section RevealBefore.
       split; [lia|]. split; [intros _; split; reflexivity|]. intros _ H; discriminate.
   Qed.
 
-  Lemma chain_count : forall P k, chain N_order k P -> P = [] \/ k + length P <= N_order - 1.
-  Proof.
-    induction P as [|p P IH]; intros k H; [left; reflexivity|]. right. destruct H as [_ [H2 H3]].
-    destruct (IH _ H3) as [E|E]; [subst P; cbn [length]; lia|cbn [length]; lia].
-  Qed.
 
   (* the state RevealBefore leaves after the whole preceding context is the right state of the concatenation, and its
      completeness flag is that of the concatenation's left state *)
